@@ -686,3 +686,59 @@ impl RefGrammar {
         Some(g)
     }
 }
+
+// ------------------------------------------------------------------------------------------------
+// Precedence configurations
+// ------------------------------------------------------------------------------------------------
+
+/// All precedence declarations with at most `max_lines` lines over tokens `0..ntoks`: each line
+/// is an associativity and a non-empty token set, lines pairwise disjoint (a token declared twice
+/// is a grammar error). The empty declaration comes first.
+pub fn prec_configs(ntoks: usize, max_lines: usize) -> Vec<Vec<(Assoc, Vec<usize>)>> {
+    let assocs = [Assoc::Left, Assoc::Right, Assoc::Nonassoc];
+    let mut out: Vec<Vec<(Assoc, Vec<usize>)>> = vec![vec![]];
+    let mut layer: Vec<(Vec<(Assoc, Vec<usize>)>, u32)> = vec![(vec![], 0)];
+    for _ in 0..max_lines {
+        let mut next = vec![];
+        for (cfg, used) in &layer {
+            for mask in 1u32..(1 << ntoks) {
+                if mask & used != 0 {
+                    continue;
+                }
+                let ts: Vec<usize> = (0..ntoks).filter(|t| mask & (1 << t) != 0).collect();
+                for a in assocs {
+                    let mut c = cfg.clone();
+                    c.push((a, ts.clone()));
+                    next.push((c, used | mask));
+                }
+            }
+        }
+        out.extend(next.iter().map(|(c, _)| c.clone()));
+        layer = next;
+    }
+    out
+}
+
+impl RefGrammar {
+    /// All variants of this grammar with a precedence configuration (<= `max_lines` lines) and
+    /// at most one `%prec` placement (any production, any token that has a precedence).
+    pub fn prec_variants(&self, max_lines: usize, with_prec_override: bool) -> Vec<RefGrammar> {
+        let mut out = vec![];
+        for cfg in prec_configs(self.ntoks, max_lines) {
+            let mut g = self.clone();
+            g.precs = cfg.clone();
+            out.push(g.clone());
+            if with_prec_override {
+                let declared: Vec<usize> = cfg.iter().flat_map(|(_, ts)| ts.iter().cloned()).collect();
+                for (r, i) in self.flat_prods() {
+                    for t in &declared {
+                        let mut g2 = g.clone();
+                        g2.prod_prec = vec![(r, i, *t)];
+                        out.push(g2);
+                    }
+                }
+            }
+        }
+        out
+    }
+}
